@@ -887,7 +887,9 @@ class PythonPrimitiveToStoneDecoder:
             else:
                 try:
                     ret = base64.b64decode(val)
-                except (TypeError, binascii.Error):
+                except (TypeError, ValueError):
+                    # binascii.Error is a ValueError; a str with non-ASCII
+                    # characters raises a plain ValueError.
                     raise bv.ValidationError('invalid base64-encoded bytes')
         elif isinstance(data_type, bv.Void):
             if self.strict and val is not None:
